@@ -47,7 +47,7 @@ func (S) Level() string { return "exploration" }
 func (S) Info() scen.Info {
 	return scen.Info{
 		Rule: "unit = one seeded history of <=80 steps by 2-4 interleaved holders over a pool of <=28 finished nodes from every source (generic builders with every size hint, dag-cbor / dag-json decoders, LinkSystem.Load, reflection-bound builders and Wrap, generated-code builders, plain and subset matches on strings and bytes, focused and walking transforms, stream-backed bytes) with operations: full reads, large-bytes readers read in pieces with seeks, encodes, Copy / AssignNode into other builders that are then extended, whole-node assign then Reset and rebuild, Reset of the producing builder, walks, transforms, DeepEqual, abandoned builders. " +
-			"distinct_nontrivial counts distinct hash(node sources in the pool, sequence of (holder, operation, source kind of the node operated on)) over histories with at least one builder reuse or structure-sharing operation followed by a re-read.",
+			"distinct_nontrivial counts distinct hash(node sources in the pool, sequence of (holder, operation, source kind of the node operated on)) over histories with at least one builder reuse or structure-sharing operation followed by a re-read. Later additions: caller-supplied stream readers with short reads, EOF-with-data and one transient fault at first read; the vocabulary shapes of C19 (both views) in the pool; generic Map / List builders as receivers of AssignNode.",
 		DistinctSet: "history",
 		Assumptions: []string{
 			"callers never write into byte slices they passed in or were handed back (the property's stated exclusion), and Go values behind a Wrap are not mutated",
